@@ -41,6 +41,7 @@ func schemaFieldOrigins(u *Unit, v ssa.Value, suffix string) []string {
 
 func runC11(c *Ctx) {
 	u, r := c.U, c.R
+	seedfixC11(c)
 	G := func(in ssa.Instruction) string { return strings.Join(u.GuardStrings(in), " && ") }
 	pipe := c.Fn("R-CAST-SOURCES", "(*Server).serveStream")
 	hx := c.Fn("R-CAST-SOURCES", "(*HttpServer).handleStreamExchange")
